@@ -143,8 +143,15 @@ class Engine:
         for ax in getattr(reg, "axioms", {}).values():
             # data-model axioms are only added where their record sort occurs (they would otherwise burden
             # every satisfiability search with quantifiers over an unrelated sort)
-            if not any(t in mentioned for t in ax.types.values()):
-                continue
+            if getattr(ax, "props", None):
+                if not set(ax.props) & set(contract.props or []) or contract.qualname in getattr(ax, "not_for", []):
+                    continue
+            else:
+                rec_types = [t for t in ax.types.values() if t.startswith("Rec:")]
+                if rec_types and not any(t in mentioned for t in rec_types):
+                    continue
+                if not rec_types and not any(t in mentioned for t in ax.types.values()):
+                    continue
             env = {}
             bound = []
             for n, tn in ax.types.items():
@@ -398,6 +405,13 @@ class Engine:
         exact = [c for c in cands if c.qualname == f"{cls}.{name}"]
         if exact:
             return exact[0]
+        if not cands:
+            # inherited method: the contract is attached to the base class that defines it
+            r_ = self.reg.records.get(cls)
+            for b in (getattr(r_, "bases", None) or []):
+                m_ = self.method_contract_in(b, name)
+                if m_ is not None:
+                    return m_
         cands = [c for c in cands if (c.path_hints or {}).get("callable_variant", False)]
         if not cands:
             return None
@@ -406,6 +420,12 @@ class Engine:
         if args is None:
             return VariantSet(cands)
         return self.select_variant(cands, args)
+
+    def method_contract_in(self, cls: str, name: str):
+        for c in self.reg.contracts.values():
+            if c.qualname == f"{cls}.{name}":
+                return c
+        return None
 
     def select_variant(self, cands, args: List[V]):
         def fits(v: V, t: T) -> bool:
@@ -990,7 +1010,11 @@ class Engine:
     def read_field(self, obj: VRec, f: str, heap) -> V:
         val = self.fac.field(obj, f)
         for t, v in heap.get(f"{obj.cls}.{f}", []):
-            val = self.merge(obj.t == t, v, val)
+            if isinstance(t, str) and t == "ALLOBJ":
+                ft, ver = v
+                val = self.fac.mk(ft, ver, [obj.t])      # a havocked version of the whole field
+            else:
+                val = self.merge(obj.t == t, v, val)
         return val
 
     def resolve_field(self, cls: str, attr: str) -> Optional[str]:
@@ -1169,12 +1193,24 @@ class Engine:
         res = self.fac.mk(TSeq("list", et), name)
 
         def body(i):
-            old = self.emit
-            self.emit = False
+            old, oc = self.emit, self.comp_collect
+            self.emit, self.comp_collect = False, []
             try:
                 return self.comp_body(node, g, it, st, i, node.elt)
             finally:
-                self.emit = old
+                self.emit, self.comp_collect = old, oc
+        # facts assumed from contracted calls in the filter / element expressions hold for every source index
+        kb = self.bound_var()
+        old_emit, old_col = self.emit, self.comp_collect
+        self.emit, self.comp_collect = False, []
+        try:
+            self.comp_body(node, g, it, st, kb, node.elt)
+            cfacts = self.comp_collect
+        finally:
+            self.emit, self.comp_collect = old_emit, old_col
+            self.unbind()
+        if cfacts and not self.spec_mode:
+            st.pc.append(z3.ForAll([kb], z3.Implies(z3.And(kb >= 0, kb < it.length), z3.And(*cfacts))))
         i = self.bound_var()
         try:
             p, f = body(i)
@@ -1547,7 +1583,8 @@ class Engine:
         hsig = ""
         if rel:
             import hashlib
-            txt = ";".join(f"{k}:" + ",".join(t.sexpr() + "=" + self._vkey(v) for t, v in ws) for k, ws in sorted(rel.items()))
+            txt = ";".join(f"{k}:" + ",".join((t + "=" + v[1]) if isinstance(t, str) else (t.sexpr() + "=" + self._vkey(v))
+                                              for t, v in ws) for k, ws in sorted(rel.items()))
             hsig = "@h" + hashlib.sha1(txt.encode()).hexdigest()[:8]
         sym = "spec." + s.name + hsig + ("[" + "|".join(fixed) + "]" if fixed else "")
         fn = z3.Function(sym, *[z.sort() for z in zargs], rng)
@@ -1898,10 +1935,55 @@ class Engine:
             raise Unsupported(f"loop #{k} at L{lineno} has no invariant")
         return spec
 
+    def st_For_growing(self, s, st, spec):
+        """`for x in o.f:` where the body may append to the list o.f it iterates over (Python then also visits
+        the appended elements).  Sound over-approximation for partial correctness: the invariant is proved on
+        entry; one iteration is executed from an ARBITRARY state satisfying it, with x an ARBITRARY element of
+        the current list; the invariant is proved again afterwards; after the loop only the invariant is known.
+        Heap fields the body may write (modifies clauses of the callees) are havocked before the iteration."""
+        inv_text = spec["invariant"]
+
+        def inv(state: State):
+            return self.truthy(self.ev_clause(inv_text, state.env, heap=state.heap))
+        self.oblige(st, f"inv-init@L{s.lineno}", "inv-init", inv(st), s.lineno)
+        hv = st.fork()
+        target_names = [x.id for x in ast.walk(s.target) if isinstance(x, ast.Name)]
+        for n in [n for n in self.assigned_names(s.body) if n in st.env and n not in target_names]:
+            hv.env[n] = self.fresh_like(st.env[n], n)
+            hv.pc.extend(wf_facts(hv.env[n]))
+        for key in spec.get("havoc_fields", []):
+            cls_, f = key.split(".", 1)
+            ft = parse_type(self.reg.records[cls_].fields[f])
+            ver = fresh_name(f"{cls_}.{f}.loop")
+            # a new version of the field for EVERY object: written as a store on a universally chosen object is
+            # not expressible in the store chain, so the chain is replaced by a fresh field function
+            hv.heap[key] = [("ALLOBJ", (ft, ver))]
+        hv.pc.append(inv(hv))
+        body_st = hv.fork()
+        it = self.iter_seq(s.iter, body_st)
+        k = z3.Int(fresh_name("k"))
+        body_st.pc += [k >= 0, k < it.length]
+        self.bind_target(s.target, self.elem(it, k), body_st, s.lineno)
+        outs: List[Outcome] = []
+        after: List[State] = []
+        for o in self.exec_block(s.body, body_st):
+            if o.kind in ("fall", "continue"):
+                self.oblige(o.st, f"inv-step@L{s.lineno}", "inv-step", inv(o.st), s.lineno)
+                self.obls.append(Obligation(f"cover-loop@L{s.lineno}", "cover", o.st.pc, z3.BoolVal(False), s.lineno,
+                                            expect="sat", detail=f"loop-body@L{s.lineno}"))
+            elif o.kind == "break":
+                after.append(o.st)
+            else:
+                outs.append(o)
+        after.append(hv.fork())
+        return outs + [Outcome("fall", a) for a in after]
+
     def st_For(self, s, st):
         if s.orelse:
             raise Unsupported("for-else")
         spec = self.loop_spec(s.lineno, s)
+        if spec.get("mode") == "growing":
+            return self.st_For_growing(s, st, spec)
         it = self.iter_seq(s.iter, st)
         kname = spec.get("index", "_k")
         inv_text = spec["invariant"]
